@@ -52,7 +52,7 @@ ENTRIES = {
              "summed declared size; evaluate_model's chain ids label each column with the chain its sample came from on complete chains and "
              "partial chains are refused; add beyond declared / get out of range / save empty / concat of nothing are Err. Tied to the code by "
              "running the extracted model and the real ThetaHolder save_h5/load_h5/concat/add/get and evaluate_model.main() on the same cases, "
-             "compared bit-for-bit. In addition the ThetaHolder methods __init__, n_thetas, get_theta, add_theta, is_complete, combine, concat, load_h5 and save_h5 are re-translated from /repo's source into Gallina on every run and C10_model_is_source_* prove the model equal to the translations (h5py calls are declared primitives). evaluate_model.main is re-translated too (chain ids from the per-file declared sizes in argument order).",
+             "compared bit-for-bit. In addition the ThetaHolder methods __init__, n_thetas, get_theta, add_theta, is_complete, combine, concat, load_h5 and save_h5 are re-translated from /repo's source into Gallina on every run and C10_model_is_source_* prove the model equal to the translations (h5py calls are declared primitives). evaluate_model.main is re-translated too (chain ids from the per-file declared sizes in argument order). The sample classes' private_parameters_dict / shared_parameters_dict / from_dicts and Theta.equals are re-translated too; C10_source_samples_persist: translated save, the file, translated load and translated from_dicts give the samples back.",
         note="Trusted: Coq kernel, extraction, OCaml driver, Python harness; HDF5/h5py storage and from_dicts are modelled as identity on "
              "(private, shared) and checked bitwise per case; shared parameters are taken from sample 0 (holders mixing different single-effect "
              "tables are characterised by C10_load_save_general, not counted as violations unless VERIF_C10_STRICT_SHARED=1: the shipped model "
@@ -183,7 +183,7 @@ ENTRIES = {
              "sweep order equals the call order read from the source on every run, duplicate-free and complete; get_model_state reproduces Mu and "
              "prec; the triangular solves give Q m = b and L^T(x-m) = z. Refuted and shown on the real code: a self-combination row leaves the "
              "cache stale. Tied to the code by running the extracted model per step function from the implementation's own pre-block state on 2-4 "
-             "samples, 2-5 treatments, D <= 3, 1-3 steps, with recorded draw stubs (one case in ten with a reset_model() between two sweeps), plus a numpy log-joint predicate. The horseshoe auxiliary blocks (phiaux, phi, etaaux, eta of _prec_V0/V2/V1_step) are proved to be the full conditionals of the complete joint (half-Cauchy scales in their gamma-mixture form, with the code's +1e-3 rate jitter as an explicit tilt). In addition mcmc_step and every block method of LegacySparseDrugComboImpl (get, _alpha_step, the precision blocks, _W0/_V0/_W/_V2/_V1_step with their try/except, _reconstruct_Mu, _update, encode_obs) are re-translated from /repo's source on every run into programs whose draw nodes are the np.random / sample_mvn_from_precision calls, and C08_model_is_source_* prove them equal, block by block, to the model's programs (same draw arguments, equal continuations for every drawn value).",
+             "samples, 2-5 treatments, D <= 3, 1-3 steps, with recorded draw stubs (one case in ten with a reset_model() between two sweeps), plus a numpy log-joint predicate. The horseshoe auxiliary blocks (phiaux, phi, etaaux, eta of _prec_V0/V2/V1_step) are proved to be the full conditionals of the complete joint (half-Cauchy scales in their gamma-mixture form, with the code's +1e-3 rate jitter as an explicit tilt). In addition mcmc_step and every block method of LegacySparseDrugComboImpl (get, _alpha_step, the precision blocks, _W0/_V0/_W/_V2/_V1_step with their try/except, _reconstruct_Mu, _update, encode_obs) are re-translated from /repo's source on every run into programs whose draw nodes are the np.random / sample_mvn_from_precision calls, and C08_model_is_source_* prove them equal, block by block, to the model's programs (same draw arguments, equal continuations for every drawn value). fast_mvn.sample_mvn_from_precision, the constructor, reset_model and the SparseDrugCombo wrappers are re-translated too; C08_model_is_source_sweep: from the translated constructor and any translated updates and sweeps, the translated mcmc_step over the translated blocks equals the model's sweep for every well-shaped answer stream, with no shape hypothesis left.",
         note="Trusted: Coq kernel, extraction, OCaml driver (libm sqrt oracle), Python harness; numpy normal/gamma/cholesky assumed to do what "
              "their arguments name; float rounding abstracted (tolerance 1e-4*scale); default model options only; horseshoe phi/eta steps compared "
              "and predicate-checked but not proved; KNOWN FINDING self-combination-row-stale-cache (KNOWN_FINDINGS.json); with zero observations "
